@@ -297,6 +297,16 @@ static TL int eol = '\n';
    directory that all threads write to (private files, shared directory) */
 static TL int thread_ix = -1;
 static char shared_out[4096];
+/* econf_writeFile(dir, name) creates or replaces dir/name and nothing else: any other entry in the (otherwise empty)
+   output directory is reported */
+static int stray_files(const char *dir, const char *fname)
+{
+  int n = 0; DIR *d = opendir(dir); struct dirent *e;
+  if (!d) return 0;
+  while ((e = readdir(d))) if (strcmp(e->d_name, ".") && strcmp(e->d_name, "..") && strcmp(e->d_name, fname)) n++;
+  closedir(d);
+  return n;
+}
 static void out_place(char **dir, char **fname)
 {
   if (thread_mode && thread_ix >= 0 && shared_out[0]) { *dir = strdup(shared_out); if (asprintf(fname, "w-t%d.conf", thread_ix) < 0) abort(); }
@@ -544,6 +554,7 @@ static void run_stream(FILE *in)
         struct stat wsb;
         fclose(f); printf(" bytes="); enc_n(b ? b : "", len); free(b);
         if (stat(fn, &wsb) == 0 && (wsb.st_mode & 07777) != 0644) printf(" MODE=%o", (unsigned) (wsb.st_mode & 07777));
+        if (!thread_mode && stray_files(dir, wname)) printf(" OTHER-FILES-LEFT-IN-DIRECTORY");
         free(fn);
       }
       putchar('\n'); free(dir); free(wname);
@@ -559,6 +570,7 @@ static void run_stream(FILE *in)
         char *dir, *wname; out_place(&dir, &wname);
         econf_err e = econf_writeFile(kf, dir, wname);
         if (e != ECONF_SUCCESS) printf("driver-error write failed %d\n", e);
+        else if (!thread_mode && stray_files(dir, wname)) printf("rc=0 OTHER-FILES-LEFT-IN-DIRECTORY\n");
         else {
           char dl[2] = { econf_delimiter_tag(kf), 0 }, cm[2] = { econf_comment_tag(kf), 0 };
           char *fn; if (asprintf(&fn, "%s/%s", dir, wname) < 0) abort();
